@@ -374,6 +374,8 @@ def twin_const_array(rng, sd, ac, st, cs):
     n = 0
     for w in ac2["wings"].values():
         for k in ("chord", "sweep", "dihedral", "twist"):
+            if k == "sweep" and w.get("ll_offset") == "kuchemann":
+                continue          # documented: Kuchemann's offset is only applied when the sweep is given as a constant (warning otherwise)
             if isinstance(w.get(k), float):
                 w[k] = [[0.0, w[k]], [1.0, w[k]]]
                 n += 1
